@@ -972,8 +972,44 @@ func (f *frame) execAppend(v ssa.Value, cm *ssa.CallCommon, g Term, st *State) e
 	}
 	resRe := MkSlice(nobj, IntLit(0), newLen, newCap)
 	m := vc.merge([]Term{fits, Not(fits)}, []*State{inpl, re})
+	pre := st.clone()
 	*st = *m
-	f.set(v, Ite(fits, resIn, resRe))
+	if c == 1 && !fromStr {
+		// a declared constant (define-fun names are macro-expanded, and `ite` cannot occur in patterns)
+		ar := vc.declare(f.pfx+"appres", SSlice)
+		vc.cmd(fmt.Sprintf("(assert (= %s %s))", ar.S, Ite(fits, resIn, resRe).S))
+		f.set(v, ar)
+	} else {
+		f.set(v, Ite(fits, resIn, resRe))
+	}
+	if c == 1 && !fromStr {
+		// consequences of the two branches, stated over the merged result so that quantified
+		// facts about the elements instantiate directly (entailed by the definitions above):
+		// the old elements keep their values and positions, the appended ones follow
+		res := f.vals[v]
+		acc := map[string]bool{}
+		tt.kinds(et, acc)
+		ks := make([]string, 0, len(acc))
+		for k := range acc {
+			ks = append(ks, k)
+		}
+		sort.Strings(ks)
+		for _, k := range ks {
+			h0 := vc.heap(pre, k)
+			h1 := vc.declare("happ", heapKeySort(k))
+			vc.cmd(fmt.Sprintf("(assert (= %s %s))", h1.S, vc.heap(st, k).S))
+			vc.nfresh++
+			j := fmt.Sprintf("j_%d", vc.nfresh)
+			jt := Term{j, SInt}
+			newCell := Select(Select(h1, SObj(res)), Add(SOff(res), jt))
+			oldCell := Select(Select(h0, SObj(s)), Add(SOff(s), jt))
+			addCell := Select(Select(h0, tobj), Add(toff, Sub(jt, SLen(s))))
+			body := And(
+				Implies(And(Le(IntLit(0), jt), Lt(jt, SLen(s))), Eq(newCell, oldCell)),
+				Implies(And(Le(SLen(s), jt), Lt(jt, newLen)), Eq(newCell, addCell)))
+			vc.cmd(fmt.Sprintf("(assert (=> %s (forall ((%s Int)) (! %s :pattern (%s)))))", g.S, j, body.S, newCell.S))
+		}
+	}
 	return nil
 }
 
